@@ -110,7 +110,11 @@ pub async fn add(
 
     debug!("Parsing peers from PeersArgs");
 
-    peers_args.addrs.extend(PeersArgs::read_addr_from_env());
+    // A genesis node takes no bootstrap peers: antnode rejects `--first` together with `--peer`, and
+    // ignores `ANT_PEERS` itself when `--first` is set.
+    if !peers_args.first {
+        peers_args.addrs.extend(PeersArgs::read_addr_from_env());
+    }
     peers_args.bootstrap_cache_dir = bootstrap_cache_dir;
 
     let options = AddNodeServiceOptions {
